@@ -447,12 +447,12 @@ def loop_ctx(rng, variant):
         s.ctl('sleep', ms=50)
         s.ctl('q')
         s.ctl('cancel', id=w)
-        s.wait([w], ms=2500)
+        s.wait([w], ms=10000)
         s.ctl('q')
         s.ctl('unhold', end='B')
     elif variant == 'pre-write':
         w = s.op('w', end='A', addr='B', v=hval(g, 'srcA', small=True), pre=True)
-        s.wait([w], ms=2500)
+        s.wait([w], ms=10000)
         s.ctl('q')
     elif variant == 'unreachable':        # a POST that fails closes the connection: its reader fails
         s.ctl('dial', end='A', addr='nowhere')
@@ -465,7 +465,7 @@ def loop_ctx(rng, variant):
         s.ctl('sleep', ms=30)
         s.ctl('q')
         s.ctl('cancel', id=r)
-        s.wait([r], ms=2500)
+        s.wait([r], ms=10000)
         s.ctl('q')
     return s.done()
 
